@@ -47,10 +47,10 @@ def ops : List (String × (List String → String)) := [
   ("c15.spec", fun _ => Wr.render (Wr.list wrSFamily Spec.Units.spec)),
   -- spec: which unit does this string denote?  `0` | `1 <family index> <display> <num> <den>`
   ("c15.recognise", fun ts =>
-    match Rd.run Rd.str ts with
+    match Rd.run (do let s ← Rd.str; let l ← Rd.str; pure (s, l)) ts with
     | none => "bad-op"
-    | some s =>
-      match Spec.Units.recognise s with
+    | some (s, l) =>
+      match Spec.Units.recognise2 s l with
       | none => "0"
       | some (i, u) => Wr.render (["1", toString i] ++ Wr.str u.display ++ [toString u.num, toString u.den])),
   -- model: Scale(v, from, to) -> `<num> <den> <unit>`
@@ -72,6 +72,14 @@ def ops : List (String × (List String → String)) := [
       let w := if Q.ltB Q.zero r && !decide (Q.eqv r Q.one) then scaleByRatio v r else v
       let l := formatValue table r v f t
       Wr.render ([toString w] ++ wrQ l.1 ++ Wr.str l.2)),
+  -- model: selectOutputUnit  <n> (flat cum)* total rnum rden sampleUnit callgrind -> unit
+  ("c15.selectunit", fun ts =>
+    match Rd.run (do
+        let ns ← Rd.list (do let f ← Rd.int; let c ← Rd.int; pure (f, c))
+        let tot ← Rd.int; let n ← Rd.int; let d ← Rd.nat; let u ← Rd.str; let cg ← Rd.bool
+        pure (ns, tot, n, d, u, cg)) ts with
+    | none => "bad-op"
+    | some (ns, tot, n, d, u, cg) => Wr.render (Wr.str (selectOutputUnit table ns tot ⟨n, d⟩ u cg))),
   -- model: Percentage(v, total) -> ratio and formatting class
   ("c15.pct", fun ts =>
     match Rd.run (do let v ← Rd.int; let t ← Rd.int; pure (v, t)) ts with
